@@ -20,7 +20,7 @@ from ..domains import estimates as E
 from ..domains import libs
 
 LEVEL = 'exploration'
-BOUND = {t: '3 shipped + 2 synthetic libraries; all unit vectors x 3 counts; all '
+BOUND = {t: '3 shipped + 3 synthetic libraries (one with an integer-valued matrix); all unit vectors x 3 counts; all '
             'basis pairs x 3 count pairs; all 1-3 subsets of a 10-descriptor '
             'sub-basis in every key order; scalings {-2, 0.5, 3}; one '
             'out-of-basis descriptor (with / without data) at every position; 3 '
@@ -52,6 +52,9 @@ SYN = {
                  mat=[[2.0, -0.5], [-0.5, 1.25]]),
     'syn3': dict(basis=['C(C)(H)3', 'C(C)2(H)2', 'C(C)3(H)'],
                  mat=[[1.5, 0.25, -0.75], [0.25, 0.5, 0.125], [-0.75, 0.125, 2.0]]),
+    # all entries whole numbers: loads with an integer dtype
+    'synint': dict(basis=['C(C)(H)3', 'C(C)2(H)2', 'C(C)3(H)'],
+                   mat=[[4, 1, 0], [1, 3, -1], [0, -1, 2]]),
 }
 SYN_GROUPS = """
 groups:
